@@ -855,7 +855,7 @@ def _spaces(quick):
       yield 'cls', ('multiclass-multioutput', avg, 1, False, kl, False), one_row_c
       # quick: predictions of the 2-row datasets have <= 2 entries, so a
       # k-list [1,3] is the same computation as [1,2] there
-      if not quick or kl != (1, 3):
+      if not quick or not (kl == (1, 3) or (avg == 'macro' and kl == (1,))):
         yield 'cls', ('multiclass-multioutput', avg, 1, True, kl, False), big
       if kl is None or (not quick and kl == (1, 2)):
         yield 'cls', ('multiclass-multioutput', avg, 1, False, kl, False), big_c
@@ -883,13 +883,12 @@ def _spaces(quick):
     yield 'cls-reject', (what,), [()]
   # -- retrieval: ragged rankings of length <= 3 over 4 ids, true sets 1-2
   rows = _retrieval_rows(range(4), 3)
-  second = [r for r in rows if r[0] in ((0,), (0, 1))] if quick else rows
+  prows = _retrieval_rows(range(3), 3) if quick else rows
   singles = [(r,) for r in rows]
-  pairs = [(a, b) for a in rows for b in second]
+  pairs = list(itt.product(prows, repeat=2))
   for kl in (None, (1,), (1, 2), (1, 3), (2, 5)):
     yield 'ret', (kl, True, 'multioutput'), singles
-    if not quick or kl != (1,):
-      yield 'ret', (kl, False, 'multioutput'), pairs
+    yield 'ret', (kl, False, 'multioutput'), pairs
   if not quick:
     small = _retrieval_rows(range(3), 2)
     triples = list(itt.product(small, repeat=3))
@@ -1002,10 +1001,9 @@ def run(ctx):
       '{micro,macro,samples}, and 1x1..3x2 for average=binary; 30 derived '
       'metrics + confusion counts per case. retrieval: every ranking of '
       'length 1..3 over 4 ids x true set of size 1-2 as a 1-row batch, every '
-      'ordered pair of such rows' + (' (second row: true set {0} or {0,1})'
-      if quick else ' and triples over 3 ids') + ' x k_list '
-      '{None,[1],[1,2],[1,3],[2,5]}' + (' (pairs: without [1])' if quick else '')
-      + ' x 17 metrics (result and per-example '
+      'ordered pair of such rows' + (' over 3 ids' if quick else
+      ' and triples over 3 ids (rankings <= 2)') + ' x k_list '
+      '{None,[1],[1,2],[1,3],[2,5]} x 17 metrics (result and per-example '
       'values). calibration histogram: labels {0,1} x predictions '
       f'{{-.25,0,.25,.5,1}} of length <= {3 if quick else 4} x bins {{2,4}}. '
       f'rolling stats: every vector of length <= {4 if quick else 6} and '
